@@ -383,3 +383,101 @@ Proof.
   destruct (documents_preserved_proof g docs Hg) as (ci & ms & E1 & _ & _ & E2).
   rewrite E1, E2, (encode_all_spec _ Hok), map_map. reflexivity.
 Qed.
+
+(* ================= children with memory (answer i may depend on all lines read) ================= *)
+Definition one_line_per_line (A : list (list Z) -> list (list Z)) : Prop :=
+  forall ls, forallb (no_delim 10) ls = true -> length (A ls) = length ls /\ forallb (no_delim 10) (A ls) = true.
+
+Lemma collect_chunks : forall docs answers,
+  length answers = length (concat (map doc_lines docs)) ->
+  collect (map meta_of docs) answers
+  = COk (map (fun ds => join_lines (snd ds) (ends_nl (fst ds)))
+             (combine docs (chunks (map (fun d => length (doc_lines d)) docs) answers))).
+Proof.
+  induction docs as [|d r IH]; intros answers Hl.
+  - simpl in *. destruct answers; [reflexivity | discriminate].
+  - simpl map. simpl concat in Hl. rewrite app_length in Hl.
+    destruct (feed_doc_spec d) as [_ Hge].
+    set (n := length (doc_lines d)) in *.
+    assert (length (firstn n answers) = n) as Hf by (rewrite firstn_length; lia).
+    assert (rebuild n (ends_nl d) answers = Some (join_lines (firstn n answers) (ends_nl d), skipn n answers)) as Hr.
+    { rewrite <- (firstn_skipn n answers) at 1. rewrite <- Hf at 1. apply rebuild_spec. }
+    cbn [collect meta_of line_cnt has_nl]. fold n.
+    destruct n as [|k] eqn:En; [lia|]. rewrite <- En in *.
+    rewrite Hr. rewrite (IH (skipn n answers)) by (rewrite skipn_length; lia).
+    cbn [chunks combine map fst snd]. fold n. rewrite En. reflexivity.
+Qed.
+
+Lemma concat_doc_lines_nolf docs : forallb (no_delim 10) (concat (map doc_lines docs)) = true.
+Proof.
+  rewrite forallb_concat. rewrite forallb_forall. intros ls Hls. apply in_map_iff in Hls.
+  destruct Hls as (d & <- & _). apply doc_shape.
+Qed.
+
+(* every sequence of documents, every child that writes one line per line read (with memory) *)
+Theorem documents_preserved_stream_proof A docs : one_line_per_line A ->
+  b64filter_docs_stream (stream_of A) b64f_collector_strip_cr docs
+  = match encode_all (docs_spec_stream A docs) with Some o => BOk o | None => BFuel end.
+Proof.
+  intros HA. unfold b64filter_docs_stream. rewrite feed_all_spec.
+  unfold stream_of, b64f_collector_strip_cr.
+  pose proof (concat_doc_lines_nolf docs) as Hl.
+  rewrite (records_unrecords 10 _ Hl).
+  destruct (HA _ Hl) as [Hlen Hnl].
+  rewrite (records_unrecords 10 _ Hnl).
+  rewrite (collect_chunks docs _ Hlen). reflexivity.
+Qed.
+
+(* stdin: LF-terminated lines ls, optionally followed by an unterminated last line *)
+Definition opt_tail (t : list Z) : list (list Z) := match t with [] => [] | _ => [t] end.
+
+Lemma records_tail ls t : forallb (no_delim 10) ls = true -> no_delim 10 t = true ->
+  (forall l a, In l ls -> l <> a ++ [13]) ->
+  records 10 b64f_feeder_strip_cr (unrecords 10 ls ++ t) = ls ++ opt_tail t.
+Proof.
+  intros Hls Ht Hcr. unfold records.
+  assert (forall cur, split_at 10 (unrecords 10 ls ++ t) cur
+          = match ls with [] => ([], rev cur ++ t) | l0 :: r => ((rev cur ++ l0) :: r, t) end) as Hs.
+  { clear Hcr. induction ls as [|l r IH]; intros cur.
+    - simpl. rewrite <- (app_nil_r t) at 1. rewrite (split_at_app_nodelim 10 t Ht). simpl.
+      rewrite rev_app_distr, rev_involutive. reflexivity.
+    - simpl in Hls. apply andb_true_iff in Hls. destruct Hls as [Hl Hr].
+      unfold unrecords. simpl flat_map. fold (unrecords 10 r). rewrite <- !app_assoc.
+      rewrite (split_at_app_nodelim 10 l Hl). simpl. try rewrite Z.eqb_refl.
+      rewrite (IH Hr []). rewrite rev_app_distr, rev_involutive.
+      destruct r; reflexivity. }
+  rewrite (Hs []). unfold b64f_feeder_strip_cr, opt_tail.
+  assert (map strip_cr ls = ls) as Hm.
+  { rewrite <- (map_id ls) at 2. apply map_ext_in. intros l Hl. apply strip_cr_id. intros a. apply Hcr. exact Hl. }
+  destruct ls as [|l0 r]; simpl.
+  - reflexivity.
+  - simpl in Hm. rewrite app_comm_cons, Hm. reflexivity.
+Qed.
+
+Theorem tool_spec_general_proof A ls t docs : one_line_per_line A ->
+  Forall2 (fun l d => base64_decode l = DOk d) (ls ++ opt_tail t) docs ->
+  forallb (no_delim 10) ls = true -> no_delim 10 t = true -> (forall l a, In l ls -> l <> a ++ [13]) ->
+  forallb bytes_okb (docs_spec_stream A docs) = true ->
+  b64filter_tool_stream (stream_of A) (unrecords 10 ls ++ t)
+  = BOk (unrecords 10 (map rfc4648 (docs_spec_stream A docs))).
+Proof.
+  intros HA Hdec Hls Ht Hcr Hok. unfold b64filter_tool_stream, b64filter_stream.
+  rewrite (records_tail ls t Hls Ht Hcr), (decode_all_spec _ docs Hdec).
+  rewrite (documents_preserved_stream_proof A docs HA), (encode_all_spec _ Hok). reflexivity.
+Qed.
+
+(* the stateless child is the instance A = map g *)
+Lemma chunks_map_concat {X Y} (f : X -> Y) (lss : list (list X)) :
+  chunks (map (@length X) lss) (map f (concat lss)) = map (map f) lss.
+Proof.
+  induction lss as [|l r IH]; [reflexivity|]. simpl. rewrite map_app.
+  rewrite <- (map_length f l) at 1 2. rewrite firstn_app, firstn_all, Nat.sub_diag. simpl. rewrite app_nil_r.
+  rewrite skipn_app, skipn_all, Nat.sub_diag. simpl. rewrite IH. reflexivity.
+Qed.
+
+Lemma docs_spec_stream_map g docs : docs_spec_stream (map g) docs = map (doc_spec g) docs.
+Proof.
+  unfold docs_spec_stream. rewrite <- (map_map doc_lines (@length (list Z))).
+  rewrite chunks_map_concat. unfold doc_spec.
+  induction docs as [|d r IH]; [reflexivity|]. simpl. rewrite IH. reflexivity.
+Qed.
